@@ -1727,6 +1727,7 @@ def frame_obligations(info: dict) -> dict[str, str]:
     names = list(MUTATORS) + [n for n in info.get('raise_tables', {}) if n not in MUTATORS]
     for n in names:
         obs[f'frame_{n.strip("_")}_has_changed_nothing_the_frame_shows_wherever_it_can_raise'] = f'method_raises_cleanly gen_raise_tables "{n}"'
+    obs['vtf_methods_other_than_init_change_no_attribute_of_the_object_itself'] = 'match gen_vtf_self_stores with nil => true | _ => false end'
     obs['every_frame_method_keeps_the_file_source_and_the_pixels_until_nothing_can_raise_any_more'] = \
         '(raise_tables_ok gen_raise_tables && negb (Nat.eqb (List.length gen_raise_tables) 0))%bool'
     return obs
@@ -1793,7 +1794,7 @@ def history_base(seed: int) -> tuple[bytes, int, list[bytes]]:
 # ---- calls that must be REJECTED (round 5): the caller catches the exception and carries on
 REJECTS = ['copy_short', 'copy_long', 'copy_rgb_without_format', 'copy_frame_of_other_size', 'copy_format_without_decoder',
            'copy_not_a_buffer', 'rescale_from_unrelated_size', 'setitem_out_of_range', 'getitem_out_of_range',
-           'setitem_three_values', 'fill_out_of_range', 'self_copy']
+           'setitem_three_values', 'setitem_channel_out_of_range', 'setitem_channel_not_a_number', 'fill_out_of_range', 'self_copy']
 VTF_REJECTS = ['save_bad_version', 'save_stream_fails', 'get_bad_key', 'volumetric_as_7_1']
 ACCEPTED_NOOPS = {'self_copy'}       # not rejected, but must not change anything either
 
@@ -1830,6 +1831,8 @@ def _do_reject(v, fr, m: int, which: str) -> None:
         'setitem_out_of_range': (lambda: fr.__setitem__((w, 0), (1, 2, 3, 4)), (IndexError,)),
         'getitem_out_of_range': (lambda: fr[0, h], (IndexError,)),
         'setitem_three_values': (lambda: fr.__setitem__((0, 0), (1, 2, 3)), (ValueError, TypeError)),
+        'setitem_channel_out_of_range': (lambda: fr.__setitem__((1 % w, 0), (1, 2, 3, 999)), (OverflowError, ValueError)),
+        'setitem_channel_not_a_number': (lambda: fr.__setitem__((0, 0), (1, 'x', 3, 4)), (TypeError, ValueError)),
         'fill_out_of_range': (lambda: fr.fill(256, 0, 0, 255), (OverflowError, ValueError)),
         'self_copy': (lambda: fr.copy_from(fr), ()),
     }
@@ -1927,6 +1930,73 @@ def reject_view_case(seed: int, pre: str, m: int, which: str | None) -> list[tup
         black = got == bytes((0, 0, 0, 255)) * (fr.width * fr.height)
         return [(f'rejected-call-changes-the-pixels-shown-{which}', what + ': the frame shows other pixels afterwards'
                  + (' (opaque black)' if black else ''))]
+    return []
+
+
+META_REJECTS = ['save_version_7_9', 'save_version_8_2', 'save_stream_fails_after_40', 'save_stream_fails_after_90',
+                'save_stream_fails_after_150', 'save_stream_fails_after_400', 'save_stream_fails_after_2000', 'get_mipmap_99',
+                'clear_mipmaps_after_not_a_number', 'thumbnail_copy_short', 'thumbnail_copy_frame_of_other_size',
+                'frame_1_copy_short', 'volumetric_as_7_1']
+
+
+def reject_meta_case(seed: int, which: str | None) -> list[tuple[str, str]]:
+    """A 7.4 file with flags, reflectivity, two frames, an inline and a data resource, a particle sheet and a thumbnail is read
+    lazily; one call is rejected (or a save() fails half-way) and the caller carries on; the next save() must write the file
+    byte for byte (a lazy re-save does, without the rejected call: checked first)."""
+    from srctools.vtf import VTF, ImageFormats, Resource, ResourceID, VTFFlags, SheetSequence, TexCoord
+    r = random.Random(seed)
+    tc = TexCoord(0.0, 0.25, 0.5, 0.75)
+    seq = SheetSequence(frames=[(1.0, tc, tc, tc, tc)], clamp=True, duration=1.0)
+    v = VTF(16, 8, frames=2, version=(7, 4), fmt=ImageFormats.BGRA8888, thumb_fmt=ImageFormats.RGB888, ref=(0.25, 0.5, 0.75),
+            bump_scale=2.0, flags=VTFFlags.CLAMP_S | VTFFlags.NO_MIP, sheet_info={3: seq})
+    v.resources[ResourceID.LOD_SETTINGS] = Resource(0, 0x01020304)
+    v.resources[b'XYZ'] = Resource(0, bytes(r.randrange(256) for _ in range(21)))
+    for fr in v._frames.values():
+        fr.copy_from(r.randbytes(4 * fr.width * fr.height))
+    v._low_res.copy_from(r.randbytes(4 * v._low_res.width * v._low_res.height))
+    b = io.BytesIO()
+    v.save(b)
+    data = b.getvalue()
+    w = VTF.read(io.BytesIO(data))
+    what = f'a 7.4 file with resources, sheet and thumbnail read lazily, then the rejected call {which}'
+    try:
+        try:
+            if which is None:
+                pass
+            elif which.startswith('save_version_'):
+                w.save(io.BytesIO(), version=(int(which[-3]), int(which[-1])))
+            elif which.startswith('save_stream_fails_after_'):
+                w.save(_FailingStream(int(which.rsplit('_', 1)[1])))
+            elif which == 'get_mipmap_99':
+                w.get(mipmap=99)
+            elif which == 'clear_mipmaps_after_not_a_number':
+                w.clear_mipmaps(after='x')
+            elif which == 'thumbnail_copy_short':
+                w._low_res.copy_from(bytes(5))
+            elif which == 'thumbnail_copy_frame_of_other_size':
+                w._low_res.copy_from(w.get(frame=1))
+            elif which == 'frame_1_copy_short':
+                w.get(frame=1).copy_from(bytes(5))
+            elif which == 'volumetric_as_7_1':
+                w.depth = 2
+                try:
+                    w.save(io.BytesIO(), version=(7, 1))
+                finally:
+                    w.depth = 1
+        except (ValueError, OSError, KeyError, TypeError, BufferError):
+            pass
+        else:
+            if which is not None:
+                return [(f'call-that-must-be-rejected-is-accepted-{which}', what + ': no exception')]
+        out = io.BytesIO()
+        w.save(out)
+    except Exception as e:     # noqa: BLE001
+        return [(f'rejected-call-then-save-raises-{type(e).__name__}-{which}', what + f', then save: {type(e).__name__}: {e}')]
+    if out.getvalue() != data:
+        a, c = out.getvalue(), data
+        i = next((k for k in range(min(len(a), len(c))) if a[k] != c[k]), min(len(a), len(c)))
+        return [(f'rejected-call-changes-the-saved-file-{which}', what + f': the next save() writes {len(a)} bytes, the file has {len(c)}, first '
+                 f'difference at byte {i}')]
     return []
 
 
@@ -2120,7 +2190,17 @@ HIST_KEYS = {'file': 'frame-history-level-with-file-source-not-written-from-the-
              'regenerated': 'frame-history-regenerated-level-not-average-of-its-written-parent'}
 
 
-def check_history(base: bytes, n: int, levels: list[bytes], ops: list[list]) -> list[tuple[str, str]]:
+def _culprit(base: bytes, n: int, levels: list[bytes], ops: list[list], m: int) -> str:
+    """the rejected call without which the history is fine (else the first one aimed at the level that is wrong, else the first)"""
+    idx = [i for i, op in enumerate(ops) if op[0] == 'reject']
+    if len(idx) > 1:
+        for i in idx:
+            if not check_history(base, n, levels, ops[:i] + ops[i + 1:], blame=False):
+                return ops[i][2]
+    return ([op[2] for op in ops if op[0] == 'reject' and op[1] == m and op[2] not in VTF_REJECTS] or [ops[idx[0]][2]])[0]
+
+
+def check_history(base: bytes, n: int, levels: list[bytes], ops: list[list], blame: bool = True) -> list[tuple[str, str]]:
     rejects = [op[2] for op in ops if op[0] == 'reject']
     try:
         got = run_history_impl(base, n, ops)
@@ -2139,7 +2219,7 @@ def check_history(base: bytes, n: int, levels: list[bytes], ops: list[list]) -> 
             if g != exp:
                 black = g == bytes((0, 0, 0, 255)) * (len(g) // 4)
                 if rejects:
-                    culprit = ([op[2] for op in ops if op[0] == 'reject' and op[1] == m and op[2] not in VTF_REJECTS] or rejects)[0]
+                    culprit = _culprit(base, n, levels, ops, m) if blame else rejects[0]
                     probs.append((f'rejected-call-changes-what-is-saved-{culprit}',
                                   f'lazy read of a {HIST_W}x{HIST_H} file, then {ops} (every "reject" is a call that raises and whose exception is '
                                   f'caught), then save: level {m} must be written from "{why}" as if the rejected calls had not been made (or had '
@@ -2287,6 +2367,15 @@ def search_rejected(ck: Ck) -> None:
                     if key not in reported:
                         reported.add(key)
                         ck.violation(key, what, {'failed_load': [ck.seed, mode, m, then]})
+    if not reject_meta_case(ck.seed, None):        # else: the lazy re-save itself differs, reported by the file oracle
+        for which in META_REJECTS:
+            ck.count('rejected_call_whole_file')
+            ck.hist('rejected_call', which)
+            ck.seen(('rejmeta', which))
+            for key, what in reject_meta_case(ck.seed, which):
+                if key not in reported:
+                    reported.add(key)
+                    ck.violation(key, what, {'reject_meta': [ck.seed, which]})
     fixed: list[list[list]] = []
     for which in REJECTS:
         for m in (0, 1):
@@ -2518,6 +2607,7 @@ def run(ck: Ck) -> None:
             ck.explain('instance:example_')
             ck.explain('correspondence:container')
         if k.startswith(('rejected-call-', 'failed-load-', 'call-that-must-be-rejected')):
+            ck.explain('instance:vtf_methods_other_than_init')
             ck.explain('instance:frame_')
             ck.explain('instance:every_frame_method_keeps')
             ck.explain('translate:VtfFrameSM_gen')
@@ -2579,6 +2669,14 @@ def run(ck: Ck) -> None:
             ck.explain('instance:read_level')
             ck.explain('instance:save_and_read')
             ck.explain('instance:frame_key')
+    # the premise of c15_property is the conjunction of premises that have their own named obligations: it is explained exactly
+    # when every broken part is (a part broken without a failing input keeps the whole unexplained as well)
+    whole_prefixes = ('instance:all_premises_of_c15_property', 'instance:the_premises_of_c15_property')
+    parts_unexplained = [o for o in ck.obligations if not o['ok'] and not o.get('explained') and not o['name'].startswith(whole_prefixes)]
+    parts_broken = [o for o in ck.obligations if not o['ok'] and not o['name'].startswith(whole_prefixes)]
+    if parts_broken and not parts_unexplained:
+        for pfx in whole_prefixes:
+            ck.explain(pfx)
 
 
 def replay(data: dict) -> int:
@@ -2608,6 +2706,10 @@ def replay(data: dict) -> int:
         return 0
     if 'reject_view' in r:
         for k, w in reject_view_case(*r['reject_view']):
+            print(k, '::', w)
+        return 0
+    if 'reject_meta' in r:
+        for k, w in reject_meta_case(*r['reject_meta']):
             print(k, '::', w)
         return 0
     if 'failed_load' in r:
